@@ -2,6 +2,7 @@ package rules
 
 import (
 	"fmt"
+	"go/types"
 	"sort"
 	"strings"
 
@@ -40,8 +41,7 @@ func (c *Ctx) accessorReturns(f *ssa.Function) []retSig {
 		if !ok || k.Value != nil {
 			return false, false
 		}
-		t := c.O.Of(x).String()
-		if strings.HasPrefix(t, "extract<1>(call<strconv.Parse") {
+		if isErrorTyped(x) {
 			return true, eq
 		}
 		return false, false
@@ -78,6 +78,10 @@ func (c *Ctx) accessorReturns(f *ssa.Function) []retSig {
 	return out
 }
 
+func isErrorTyped(v ssa.Value) bool {
+	return types.Identical(v.Type(), types.Universe.Lookup("error").Type())
+}
+
 func sigString(s []retSig) string {
 	var parts []string
 	for _, x := range s {
@@ -89,57 +93,120 @@ func sigString(s []retSig) string {
 // ruleAccessors is C20.R1.
 func ruleAccessors(c *Ctx, rule string) {
 	c.R.Rule(c.R.Property+"."+rule, 16, "the Params accessors agree with each other, with the captured text and with strconv")
+	// terms are taken without inlining: the accessors are specified relative to Get
+	saved := c.O
+	c.O = an.NewOriginator(c.P)
+	c.O.InlineDepth = 0
+	defer func() { c.O = saved }()
 	v := "extract<0>(" + getTerm + ")"
 	found := "extract<1>(" + getTerm + ")"
-	notExists := "global:types.errParamNotExists"
+	notExists := "call<types.ErrParamNotExists>()"
 	parse := map[string]string{
 		"Int":   "call<strconv.ParseInt>(" + v + ", 10, 64)",
 		"Uint":  "call<strconv.ParseUint>(" + v + ", 10, 64)",
 		"Bool":  "call<strconv.ParseBool>(" + v + ")",
 		"Float": "call<strconv.ParseFloat>(" + v + ", 64)",
 	}
-	zero := map[string]string{"Int": "0", "Uint": "0", "Bool": "false", "Float": "0"}
-	expect := map[string][]retSig{
-		"Exists":     {{"", found}},
-		"String":     {{"!found", `"" | ` + notExists}, {"found", v + " | nil"}},
-		"MustString": {{"!found", "param:def"}, {"found", v}},
-	}
-	for k, p := range parse {
-		expect[k] = []retSig{{"!found", zero[k] + " | " + notExists}, {"found", "extract<0>(" + p + ") | extract<1>(" + p + ")"}}
-		expect["Must"+k] = []retSig{{"", "param:def"}, {"found&err==nil", "extract<0>(" + p + ")"}}
-	}
-	var names []string
-	for k := range expect {
-		names = append(names, k)
-	}
-	sort.Strings(names)
-	for _, name := range names {
-		f := c.P.MustFunc("types.(*Context)." + name)
-		want := append([]retSig(nil), expect[name]...)
-		sort.Slice(want, func(i, j int) bool { return want[i].cond+want[i].vals < want[j].cond+want[j].vals })
-		got := c.accessorReturns(f)
-		good := sigString(got) == sigString(want)
-		c.R.Add(rule, c.fk(f), "returns", c.P.Pos(f.Pos()), good, ifelse(good, sigString(got), "accessor returns "+sigString(got)+" — the contract is "+sigString(want)))
-		if strings.HasPrefix(name, "Must") && name != "MustString" {
-			// the default is returned only when the strict sibling fails: with found && err == nil it is unreachable
-			path := (&an.Query{
-				Assume: func(cond ssa.Value) (bool, bool) {
-					if c.O.Of(cond).String() == found {
-						return true, true
-					}
-					x, k, eq, ok := an.CondAtom(cond)
-					if ok && k.Value == nil && strings.HasPrefix(c.O.Of(x).String(), "extract<1>(call<strconv.Parse") {
-						return eq, true
-					}
-					return false, false
-				},
-				Target: func(t ssa.Instruction) bool {
-					r, ok := t.(*ssa.Return)
-					return ok && c.O.Of(r.Results[0]).String() == "param:def"
-				},
-			}).Search(an.Entry(f))
-			c.R.Add(rule, c.fk(f), "default-only-when-strict-fails", c.P.Pos(f.Pos()), path == nil, ifelse(path == nil, "with found && err == nil the default is unreachable", "the default can be returned although the strict counterpart succeeds"))
+	zero := map[string]string{"Int": "0", "Uint": "0", "Bool": "false", "Float": "0", "String": `""`}
+	has := func(cond, atom string) bool {
+		for _, a := range strings.Split(cond, "&") {
+			if a == atom {
+				return true
+			}
 		}
+		return false
+	}
+	check := func(name string, judge func(r retSig) string) {
+		f := c.P.MustFunc("types.(*Context)." + name)
+		got := c.accessorReturns(f)
+		var bad []string
+		for _, r := range got {
+			if why := judge(r); why != "" {
+				bad = append(bad, "["+r.cond+"] → "+r.vals+": "+why)
+			}
+		}
+		c.R.Add(rule, c.fk(f), "returns", c.P.Pos(f.Pos()), len(bad) == 0, ifelse(len(bad) == 0, sigString(got), "accessor breaks its contract: "+strings.Join(bad, " ; ")))
+	}
+	check("Exists", func(r retSig) string {
+		if r.vals == found {
+			return ""
+		}
+		return "Exists must return Get's found flag"
+	})
+	strict := func(name, okVals string) {
+		check(name, func(r retSig) string {
+			switch {
+			case r.vals == okVals:
+				if !has(r.cond, "found") {
+					return "the parsed result is returned without the key having been found"
+				}
+			case r.vals == zero[name]+" | "+notExists:
+				if !has(r.cond, "!found") {
+					return "the not-exists error is returned although the key may exist"
+				}
+			default:
+				return "neither the strconv result on the captured text nor (zero, ErrParamNotExists())"
+			}
+			return ""
+		})
+	}
+	strict("String", v+" | nil")
+	for k, p := range parse {
+		strict(k, "extract<0>("+p+") | extract<1>("+p+")")
+	}
+	must := func(name, base string) {
+		viaParse := ""
+		if p, ok := parse[base]; ok {
+			viaParse = "extract<0>(" + p + ")"
+		} else {
+			viaParse = v // MustString
+		}
+		viaSibling := "extract<0>(call<types.(*Context)." + base + ">(recv, param:key))"
+		check(name, func(r retSig) string {
+			switch r.vals {
+			case "param:def":
+				return ""
+			case viaParse:
+				if base == "String" {
+					if !has(r.cond, "found") {
+						return "the captured text is returned without the key having been found"
+					}
+					return ""
+				}
+				if !has(r.cond, "found") || !has(r.cond, "err==nil") {
+					return "the parsed value is returned without found && err == nil"
+				}
+				return ""
+			case viaSibling:
+				if !has(r.cond, "err==nil") {
+					return "the strict sibling's value is returned without err == nil"
+				}
+				return ""
+			}
+			return "neither the default nor the value its strict counterpart returns"
+		})
+		// the default is returned only when the strict sibling fails
+		f := c.P.MustFunc("types.(*Context)." + name)
+		path := (&an.Query{
+			Assume: func(cond ssa.Value) (bool, bool) {
+				if c.O.Of(cond).String() == found {
+					return true, true
+				}
+				x, k, eq, ok := an.CondAtom(cond)
+				if ok && k.Value == nil && isErrorTyped(x) {
+					return eq, true
+				}
+				return false, false
+			},
+			Target: func(t ssa.Instruction) bool {
+				r, ok := t.(*ssa.Return)
+				return ok && c.O.Of(r.Results[0]).String() == "param:def"
+			},
+		}).Search(an.Entry(f))
+		c.R.Add(rule, c.fk(f), "default-only-when-strict-fails", c.P.Pos(f.Pos()), path == nil, ifelse(path == nil, "with the key found and no parse error the default is unreachable", "the default can be returned although the strict counterpart succeeds"))
+	}
+	for _, base := range []string{"String", "Int", "Uint", "Bool", "Float"} {
+		must("Must"+base, base)
 	}
 	// Count
 	cnt := c.P.MustFunc("types.(*Context).Count")
